@@ -198,7 +198,11 @@ func (c c17Case) sig(clause string) string {
 	if c.FaultAt > 0 {
 		f = fmt.Sprintf("fault@%d", c.FaultAt)
 	}
-	return fmt.Sprintf("C17/%s/shapes=%s/lead=%q/trail=%q/sepb=%q/sepa=%q/%s", clause, c.key(), c.Lead, c.Trail, strings.Join(c.SepB, "|"), strings.Join(c.SepA, "|"), f)
+	trail := c.Trail
+	if c.Broken != "" {
+		trail = ""
+	}
+	return fmt.Sprintf("C17/%s/shapes=%s/lead=%q/trail=%q/sepb=%q/sepa=%q/%s", clause, c.key(), c.Lead, trail, strings.Join(c.SepB, "|"), strings.Join(c.SepA, "|"), f)
 }
 
 // c17CheckSplit returns "" or the failed clause + description.
@@ -317,6 +321,8 @@ func c17SameStmt(b c17Built, i int, obs string) bool {
 	hi := len(b.Text)
 	if i+1 < len(b.Start) {
 		hi = b.Start[i+1]
+	} else if b.BrokenStart >= 0 {
+		hi = b.BrokenStart
 	}
 	for s := lo; s <= b.Start[i]; s++ {
 		for e := b.End[i]; e <= hi; e++ {
@@ -360,6 +366,10 @@ func (g *c17Rig) run(c c17Case, b c17Built) (string, string, rwObs, string) {
 	if err != nil {
 		return "io", fmt.Sprintf("client I/O error on %q: %v", b.Text, err), obs, reply
 	}
+	if b.BrokenStart >= 0 {
+		cl, what := g.checkBroken(b, rs, obs, reply)
+		return cl, what, obs, reply
+	}
 	want := len(b.Stmts)
 	if c.FaultAt > 0 && c.FaultAt <= want {
 		want = c.FaultAt
@@ -393,6 +403,57 @@ func (g *c17Rig) run(c c17Case, b c17Built) (string, string, rwObs, string) {
 	return "", "", obs, reply
 }
 
+// checkBroken is oracle 2 for a text whose last statement is lexically invalid (see
+// c17CheckSplitBroken for the pinned behaviour): unterminated comment => one error reply and
+// NO backend exec for the packet; unterminated quote => either that, or exactly the valid
+// statements in order followed at most by one exec of the WHOLE broken tail, verbatim.
+func (g *c17Rig) checkBroken(b c17Built, rs []*mycli.Reply, obs rwObs, reply string) (string, string) {
+	desc := func(what string) string {
+		return fmt.Sprintf("%s: text %q = valid statements %q + broken tail %q; backend saw %q; replies: %s", what, b.Text, b.Stmts, b.Text[b.BrokenStart:], c17ExecSQL(obs), reply)
+	}
+	refused := len(obs.Execs) == 0 && len(rs) == 1 && rs[0].Err != nil
+	if refused {
+		return "", ""
+	}
+	if b.BrokenKind == "comment" {
+		return "rig-broken-executed", desc("a packet whose last statement holds an unterminated comment was not refused as a whole")
+	}
+	n := len(b.Stmts)
+	if len(obs.Execs) != n && len(obs.Execs) != n+1 {
+		return "rig-broken-exec-count", desc(fmt.Sprintf("backend executed %d statements, expected %d valid ones (+ at most the whole broken tail)", len(obs.Execs), n))
+	}
+	for i := 0; i < n; i++ {
+		if !c17SameStmt(b, i, obs.Execs[i].SQL) {
+			if r := g.restored(b.Stmts[i]); r == "" || r != obs.Execs[i].SQL {
+				return "rig-broken-exec-text", desc(fmt.Sprintf("backend exec %d is not constructed statement %d", i, i))
+			}
+		}
+	}
+	if len(obs.Execs) == n+1 {
+		o := strings.TrimSpace(obs.Execs[n].SQL)
+		lo := 0
+		if n > 0 {
+			lo = b.End[n-1]
+		}
+		ok := false
+		for s := lo; s <= b.BrokenStart; s++ {
+			if strings.TrimSpace(b.Text[s:]) == o {
+				ok = true
+				break
+			}
+		}
+		if !ok {
+			return "rig-broken-derived", desc("the backend received a statement derived from (cut out of) the broken statement")
+		}
+	}
+	for i := 0; i < n && i < len(rs); i++ {
+		if rs[i].Err != nil {
+			return "rig-broken-reply", desc(fmt.Sprintf("reply %d for a valid statement is an error", i))
+		}
+	}
+	return "", ""
+}
+
 func c17ExecSQL(o rwObs) []string {
 	var out []string
 	for _, e := range o.Execs {
@@ -408,7 +469,7 @@ func c17Shrink(c c17Case, fails func(c17Case) bool) c17Case {
 		changed = false
 		var cands []c17Case
 		for i := range cur.Shapes {
-			if len(cur.Shapes) == 1 {
+			if len(cur.Shapes) == 1 && cur.Broken == "" {
 				break
 			}
 			d := cur
@@ -417,8 +478,10 @@ func c17Shrink(c c17Case, fails func(c17Case) bool) c17Case {
 			if j >= len(cur.SepB) {
 				j = len(cur.SepB) - 1
 			}
-			d.SepB = append(append([]string{}, cur.SepB[:j]...), cur.SepB[j+1:]...)
-			d.SepA = append(append([]string{}, cur.SepA[:j]...), cur.SepA[j+1:]...)
+			if j >= 0 {
+				d.SepB = append(append([]string{}, cur.SepB[:j]...), cur.SepB[j+1:]...)
+				d.SepA = append(append([]string{}, cur.SepA[:j]...), cur.SepA[j+1:]...)
+			}
 			if d.FaultAt > 0 {
 				// keep the fault inside the remaining statements
 				nst := 0
@@ -517,10 +580,11 @@ func c17Random(rnd *kit.Rand, maxPieces int, rigOnly bool) c17Case {
 
 func TestVerif_C17(t *testing.T) {
 	rec := kit.Start("C17", "exploration",
-		"texts are sequences of pieces (31 statement shapes with ';' inside '..', \"..\", `..`, /* */, --, #, and 7 empty-piece shapes) joined by real ';' with varied white space, lead and trail; "+
+		"texts are sequences of pieces (31 statement shapes with ';' inside '..', \"..\", `..`, /* */, --, #, 7 empty-piece shapes, and 11 lexically invalid tails: unterminated /* ' \" ` with a ';' after the opener, after 0..n valid statements) joined by real ';' with varied white space, lead and trail; "+
 			"thorough enumerates every sequence of <=3 pieces x lead x trail and samples longer ones; a case is non-trivial when it has a ';' that is not a separator together with >=2 pieces (key = shape sequence)")
 	defer rec.Finish(t)
-	rec.Assume("line comments are newline-terminated by construction; sql_mode without NO_BACKSLASH_ESCAPES/ANSI_QUOTES; '/*! */' version comments and unterminated constructs are outside the generated space")
+	rec.Assume("line comments are newline-terminated by construction; sql_mode without NO_BACKSLASH_ESCAPES/ANSI_QUOTES; '/*! */' version comments are outside the generated space")
+	rec.Assume("lexically invalid tails (unterminated /* comment, '..., \"..., `... with a ';' after the opener) are pinned to what the unchanged tree does: comment => the whole packet is refused (splitter error, no backend exec); quote => refused, or the valid statements in order plus at most the whole broken tail verbatim")
 	rec.Assume("through the session a statement may reach the backend verbatim (with adjacent empty material) or in the planner's restored spelling of that single statement")
 
 	pars := parser.New()
@@ -602,11 +666,14 @@ func TestVerif_C17(t *testing.T) {
 				return
 			}
 		}
-		if b.Traps > 0 && len(c.Shapes) >= 2 {
+		if (b.Traps > 0 && len(c.Shapes) >= 2) || c.Broken != "" {
 			if len(c.Shapes) <= 3 {
 				rec.Nontrivial(c.key())
 			}
 			rec.Count("whitebox.nontrivial", 1)
+		}
+		if c.Broken != "" {
+			rec.Count("whitebox.broken_tail", 1)
 		}
 		if cl, what := c17CheckSplit(b); cl != "" {
 			report(c, cl, what, false)
@@ -655,7 +722,93 @@ func TestVerif_C17(t *testing.T) {
 		}
 	}
 
+	// ---- lexically invalid tails (white-box): fixed grid + sampled prefixes
+	brokenPrefixes := [][]string{{}, {"plain"}, {"plain", "plain"}, {"sq_semi", "e_blk", "plain"}, {"e_none", "line_dash"}, {"e_blk"}}
+	mkBroken := func(prefix []string, lead, broken string) c17Case {
+		c := c17Case{Lead: lead, Shapes: append([]string{}, prefix...), Broken: broken}
+		for i := 1; i < len(prefix); i++ {
+			c.SepB = append(c.SepB, "")
+			c.SepA = append(c.SepA, " ")
+		}
+		return c
+	}
+	for _, bs := range c17Broken {
+		for _, pre := range brokenPrefixes {
+			for _, lead := range c17Leads {
+				one(mkBroken(pre, lead, bs.Name), false)
+			}
+		}
+	}
+	if kit.Tier() == "thorough" {
+		for _, bs := range c17Broken {
+			for i := range c17Shapes {
+				one(mkBroken([]string{c17Shapes[i].Name}, "", bs.Name), false)
+				for j := range c17Shapes {
+					one(mkBroken([]string{c17Shapes[i].Name, c17Shapes[j].Name}, "", bs.Name), false)
+				}
+			}
+		}
+	}
+	rb := kit.SubRand(kit.Seed(), "C17/broken")
+	for i, n := 0, kit.N(2000, 100000); i < n; i++ {
+		c := c17Random(rb, 4, false)
+		if rb.Chance(1, 5) {
+			c.Shapes, c.SepB, c.SepA = nil, nil, nil
+		}
+		c.Broken = c17Broken[rb.Intn(len(c17Broken))].Name
+		one(c, false)
+		if i < 2 {
+			c.Text = c.build().Text
+			rec.Sample(c)
+		}
+	}
+
 	// ---- rig part
+	rigBroken := func(c c17Case) bool {
+		c.ViaRig = true
+		c.FaultAt = 0
+		b := c.build()
+		rec.Eval(1)
+		rec.Count("rig.texts", 1)
+		rec.Count("rig.broken_tail", 1)
+		cl, what, obs, reply := getRig().run(c, b)
+		rec.Count("rig.events.exec", int64(len(obs.Execs)))
+		if cl == "io" {
+			rec.Inconclusive(what)
+			return false
+		}
+		if len(obs.Execs) == 0 {
+			rec.Count("rig.broken_tail.refused_whole", 1)
+		} else {
+			rec.Count("rig.broken_tail.prefix_executed", 1)
+		}
+		rec.Nontrivial("rig:" + c.key())
+		if rec.CounterValue("rig.broken_tail") <= 2 {
+			rec.Sample(map[string]interface{}{"text": b.Text, "valid_statements": b.Stmts, "broken_tail": b.Text[b.BrokenStart:], "backend_saw": c17ExecSQL(obs), "replies": reply})
+		}
+		if cl != "" {
+			report(c, cl, what, true)
+		}
+		return true
+	}
+	for _, bs := range c17Broken {
+		for _, pre := range brokenPrefixes {
+			if !rigBroken(mkBroken(pre, "", bs.Name)) {
+				return
+			}
+		}
+	}
+	rbr := kit.SubRand(kit.Seed(), "C17/rig-broken")
+	for i, n := 0, kit.N(400, 8000); i < n; i++ {
+		c := c17Random(rbr, 4, true)
+		if rbr.Chance(1, 5) {
+			c.Shapes, c.SepB, c.SepA = nil, nil, nil
+		}
+		c.Broken = c17Broken[rbr.Intn(len(c17Broken))].Name
+		if !rigBroken(c) {
+			return
+		}
+	}
 	rr := kit.SubRand(kit.Seed(), "C17/rig")
 	nRig := kit.N(1500, 40000)
 	nontrivRig := 0
